@@ -15,6 +15,9 @@ func concBatch(base uint64, from, to int, tier string, st *SiteTable, logHashes 
 	if logHashes {
 		sum.LogHashes = map[int]uint64{}
 	}
+	if tier == "thorough" {
+		maxRefSteps = 6000000
+	}
 	rl := newRaceLogReader()
 	siteAgg := make([]uint64, len(st.Sites))
 	preemptSites := map[uint32]bool{}
@@ -28,6 +31,10 @@ func concBatch(base uint64, from, to int, tier string, st *SiteTable, logHashes 
 		gen := *sc // keep the generated description for samples
 		out := runConc(sc, st, rl)
 		if out.Class == "compile" {
+			continue
+		}
+		if out.Class == "skipped" {
+			sum.Knobs["skipped_too_expensive"]++
 			continue
 		}
 		sum.Runs++
